@@ -128,12 +128,12 @@ fn judge_iv(ctx: &Ctx, acc: &mut Acc, name: &str, case: &dyn Fn() -> Case, w: u3
     acc.transitions += 1;
     match res {
         Err(p) => {
-            viol(ctx, format!("panic {name} {}", panic_site(&p)), serde_json::to_value(case()).unwrap(), json!({"observed": format!("panic: {p}"), "expected": "Ok(refined value) or Err(unsatisfiable)"}));
+            viol(ctx, acc, format!("panic {name} {}", panic_site(&p)), serde_json::to_value(case()).unwrap(), json!({"observed": format!("panic: {p}"), "expected": "Ok(refined value) or Err(unsatisfiable)"}));
             None
         }
         Ok(Err(e)) => {
             if let Some(x) = s_any {
-                viol(ctx, 
+                viol(ctx, acc, 
                     format!("spurious-unsat {name}"),
                     serde_json::to_value(case()).unwrap(),
                     json!({"observed": format!("Err({e})"), "expected": "Ok: the value has members that satisfy the condition", "satisfying_member": format!("{x:#x}")}),
@@ -145,11 +145,11 @@ fn judge_iv(ctx: &Ctx, acc: &mut Acc, name: &str, case: &dyn Fn() -> Case, w: u3
         Ok(Ok(d)) => {
             let view = read_back(&d);
             for (kind, text) in view.well_formed(Some(w)) {
-                viol(ctx, format!("wellformed {kind} {name}"), serde_json::to_value(case()).unwrap(), json!({"observed": view.render(), "broken": text}));
+                viol(ctx, acc, format!("wellformed {kind} {name}"), serde_json::to_value(case()).unwrap(), json!({"observed": view.render(), "broken": text}));
             }
             if view.bits_s == view.bits_e && view.bits_s == w * 8 {
                 if let Some(x) = missing(&view) {
-                    viol(ctx, 
+                    viol(ctx, acc, 
                         format!("soundness {name}"),
                         serde_json::to_value(case()).unwrap(),
                         json!({"observed": view.render(), "lost_member": format!("{x:#x}"), "expected": "every member of the original value that satisfies the condition is still represented"}),
@@ -378,16 +378,16 @@ fn judge_data(ctx: &Ctx, acc: &mut Acc, name: &str, case: &dyn Fn() -> Case, res
     acc.transitions += 1;
     let key = |k: &str| format!("{k} DataDomain::{name}");
     match res {
-        Err(p) => viol(ctx, format!("panic DataDomain::{name} {}", panic_site(&p)), serde_json::to_value(case()).unwrap(), json!({"observed": format!("panic: {p}")})),
+        Err(p) => viol(ctx, acc, format!("panic DataDomain::{name} {}", panic_site(&p)), serde_json::to_value(case()).unwrap(), json!({"observed": format!("panic: {p}")})),
         Ok(Err(e)) => {
             if !s.is_empty() {
-                viol(ctx, key("spurious-unsat"), serde_json::to_value(case()).unwrap(), json!({"observed": format!("Err({e})"), "expected": "Ok: something satisfying the condition remains"}));
+                viol(ctx, acc, key("spurious-unsat"), serde_json::to_value(case()).unwrap(), json!({"observed": format!("Err({e})"), "expected": "Ok: something satisfying the condition remains"}));
             }
             acc.outcome(&(name, "data-err"));
         }
         Ok(Ok(r)) => {
             if r.bytesize() != ByteSize::new(1) {
-                viol(ctx, key("wellformed width"), serde_json::to_value(case()).unwrap(), json!({"observed_size": u64::from(r.bytesize())}));
+                viol(ctx, acc, key("wellformed width"), serde_json::to_value(case()).unwrap(), json!({"observed_size": u64::from(r.bytesize())}));
             }
             let rtop = r.contains_top();
             let mut lost: Option<String> = None;
@@ -398,7 +398,7 @@ fn judge_data(ctx: &Ctx, acc: &mut Acc, name: &str, case: &dyn Fn() -> Case, res
             let abs_view = r.get_absolute_value().map(read_back);
             if let Some(v) = &abs_view {
                 for (kind, text) in v.well_formed(Some(1)) {
-                    viol(ctx, key(&format!("wellformed {kind}")), serde_json::to_value(case()).unwrap(), json!({"observed": v.render(), "broken": text}));
+                    viol(ctx, acc, key(&format!("wellformed {kind}")), serde_json::to_value(case()).unwrap(), json!({"observed": v.render(), "broken": text}));
                 }
                 shape.1 = Some((v.s, v.e, v.stride));
             }
@@ -418,12 +418,12 @@ fn judge_data(ctx: &Ctx, acc: &mut Acc, name: &str, case: &dyn Fn() -> Case, res
             for (id, off) in r.get_relative_values() {
                 let v = read_back(off);
                 for (kind, text) in v.well_formed(Some(1)) {
-                    viol(ctx, key(&format!("wellformed {kind}")), serde_json::to_value(case()).unwrap(), json!({"relative_target": format!("{id}"), "observed": v.render(), "broken": text}));
+                    viol(ctx, acc, key(&format!("wellformed {kind}")), serde_json::to_value(case()).unwrap(), json!({"relative_target": format!("{id}"), "observed": v.render(), "broken": text}));
                 }
                 shape.2.push((v.s, v.e, v.stride));
             }
             if let Some(l) = lost {
-                viol(ctx, key("soundness"), serde_json::to_value(case()).unwrap(), json!({"lost": l, "observed": r.to_json_compact(), "expected": "only the absolute part may shrink, and only by values that do not satisfy the condition"}));
+                viol(ctx, acc, key("soundness"), serde_json::to_value(case()).unwrap(), json!({"lost": l, "observed": r.to_json_compact(), "expected": "only the absolute part may shrink, and only by values that do not satisfy the condition"}));
             }
             acc.outcome(&(name, shape));
         }
